@@ -358,7 +358,6 @@ def degenerate_cases():
     out.append(_mk("mrcalc", 0, "-1", "-", "0:1/4,10:1/2", "-20,-5,0,5,20", claimed=False, tags=("neg-factor",)))
     out.append(_mk("mrcalc", 0, "-1/2", "-", "-10:1/4,0:1/8,10:1/2", "-20,-5,0,5,20", claimed=False, tags=("neg-factor",)))
     out.append(_mk("mridx", 0, "-1", "-", "0:1/4,10:1/2", "-20,-5,0,5,20", claimed=False, tags=("neg-factor",)))
-    out.append(_mk("mrcalc", fr(eps_eff(F(0))), 0, "-", "0:1/4,10:1/2", "-20,0,5,20", claimed=False, tags=("zero-factor",)))
     return out
 
 
